@@ -122,6 +122,34 @@ func compositeTp(lhs FType, rhs FType) frt.Tuple2[FType, []UniRel] {
 			tt1 := CastNow[FType_FTuple](lhs).Value
 			tps, rels := frt.Destr2(compositeTpList(compositeTp, tt1.ElemTypes, tt2.ElemTypes))
 			return frt.Pipe(frt.Pipe(TupleType{ElemTypes: tps}, New_FType_FTuple), (func(_r0 FType) frt.Tuple2[FType, []UniRel] { return withRels(rels, _r0) }))
+		case FType_FRecord:
+			rt2 := _v3.Value
+			switch _v7 := (lhs).(type) {
+			case FType_FRecord:
+				rt1 := _v7.Value
+				return frt.IfElse((frt.OpEqual(rt1.Name, rt2.Name) && frt.OpEqual(slice.Length(rt1.Targs), slice.Length(rt2.Targs))), (func() frt.Tuple2[FType, []UniRel] {
+					_, rels := frt.Destr2(compositeTpList(compositeTp, rt1.Targs, rt2.Targs))
+					return frt.Pipe(rels, (func(_r0 []UniRel) frt.Tuple2[FType, []UniRel] { return withTp(lhs, _r0) }))
+				}), (func() frt.Tuple2[FType, []UniRel] {
+					return frt.Pipe(emptyRels(), (func(_r0 []UniRel) frt.Tuple2[FType, []UniRel] { return withTp(lhs, _r0) }))
+				}))
+			default:
+				return frt.Pipe(emptyRels(), (func(_r0 []UniRel) frt.Tuple2[FType, []UniRel] { return withTp(lhs, _r0) }))
+			}
+		case FType_FUnion:
+			ut2 := _v3.Value
+			switch _v8 := (lhs).(type) {
+			case FType_FUnion:
+				ut1 := _v8.Value
+				return frt.IfElse((frt.OpEqual(ut1.Name, ut2.Name) && frt.OpEqual(slice.Length(ut1.Targs), slice.Length(ut2.Targs))), (func() frt.Tuple2[FType, []UniRel] {
+					_, rels := frt.Destr2(compositeTpList(compositeTp, ut1.Targs, ut2.Targs))
+					return frt.Pipe(rels, (func(_r0 []UniRel) frt.Tuple2[FType, []UniRel] { return withTp(lhs, _r0) }))
+				}), (func() frt.Tuple2[FType, []UniRel] {
+					return frt.Pipe(emptyRels(), (func(_r0 []UniRel) frt.Tuple2[FType, []UniRel] { return withTp(lhs, _r0) }))
+				}))
+			default:
+				return frt.Pipe(emptyRels(), (func(_r0 []UniRel) frt.Tuple2[FType, []UniRel] { return withTp(lhs, _r0) }))
+			}
 		default:
 			return frt.Pipe(emptyRels(), (func(_r0 []UniRel) frt.Tuple2[FType, []UniRel] { return withTp(lhs, _r0) }))
 		}
@@ -155,24 +183,24 @@ func varsToTupleType(vars []Var) FType {
 }
 
 func collectStmtRel(ec func(Expr) []UniRel, stmt Stmt) []UniRel {
-	switch _v7 := (stmt).(type) {
+	switch _v9 := (stmt).(type) {
 	case Stmt_SExprStmt:
-		se := _v7.Value
+		se := _v9.Value
 		return ec(se)
 	case Stmt_SLetVarDef:
-		slvd := _v7.Value
-		switch _v8 := (slvd).(type) {
+		slvd := _v9.Value
+		switch _v10 := (slvd).(type) {
 		case LLetVarDef_LLOneVarDef:
-			lvd := _v8.Value
+			lvd := _v10.Value
 			inside := ec(lvd.Rhs)
 			return frt.Pipe(unifyType(lvd.Lvar.Ftype, ExprToType(lvd.Rhs)), (func(_r0 []UniRel) []UniRel { return slice.Append(inside, _r0) }))
 		case LLetVarDef_LLDestVarDef:
-			ldvd := _v8.Value
+			ldvd := _v10.Value
 			inside := ec(ldvd.Rhs)
 			rhtype := ExprToType(ldvd.Rhs)
-			switch _v9 := (rhtype).(type) {
+			switch _v11 := (rhtype).(type) {
 			case FType_FTuple:
-				ft := _v9.Value
+				ft := _v11.Value
 				return frt.Pipe(frt.Pipe(frt.Pipe(slice.Zip(ldvd.Lvars, ft.ElemTypes), (func(_r0 []frt.Tuple2[Var, FType]) [][]UniRel { return slice.Map(unifyVETup, _r0) })), slice.Concat), (func(_r0 []UniRel) []UniRel { return slice.Append(inside, _r0) }))
 			case FType_FTypeVar:
 				lft := varsToTupleType(ldvd.Lvars)
@@ -191,9 +219,9 @@ func collectStmtRel(ec func(Expr) []UniRel, stmt Stmt) []UniRel {
 
 func collectFunCall(fc FunCall) []UniRel {
 	tftype := varRefVarType(fc.TargetFunc)
-	switch _v10 := (tftype).(type) {
+	switch _v12 := (tftype).(type) {
 	case FType_FFunc:
-		fft := _v10.Value
+		fft := _v12.Value
 		argTps := slice.Map(ExprToType, fc.Args)
 		tpArgTps := frt.Pipe(fargs(fft), (func(_r0 []FType) []FType { return slice.Take(slice.Length(argTps), _r0) }))
 		return frt.Pipe(frt.Pipe(slice.Zip(argTps, tpArgTps), (func(_r0 []frt.Tuple2[FType, FType]) [][]UniRel { return slice.Map(unifyTupArg, _r0) })), slice.Concat)
@@ -233,13 +261,13 @@ func collectExprRel(expr Expr) []UniRel {
 	colB := (func(_r0 Block) []UniRel {
 		return collectBlock(colE, (func(_r0 Stmt) []UniRel { return collectStmtRel(colE, _r0) }), _r0)
 	})
-	switch _v11 := (expr).(type) {
+	switch _v13 := (expr).(type) {
 	case Expr_EFunCall:
-		fc := _v11.Value
+		fc := _v13.Value
 		inside := frt.Pipe(slice.Map(colE, fc.Args), slice.Concat)
 		return frt.Pipe(collectFunCall(fc), (func(_r0 []UniRel) []UniRel { return slice.Append(inside, _r0) }))
 	case Expr_EBinOpCall:
-		bop := _v11.Value
+		bop := _v13.Value
 		insideL := colE(bop.Lhs)
 		insideR := colE(bop.Rhs)
 		lft := ExprToType(bop.Lhs)
@@ -256,17 +284,17 @@ func collectExprRel(expr Expr) []UniRel {
 		all := ([][]UniRel{insideL, insideR, teq, retEq})
 		return slice.Concat(all)
 	case Expr_ETupleExpr:
-		tes := _v11.Value
+		tes := _v13.Value
 		return frt.Pipe(slice.Map(colE, tes), slice.Concat)
 	case Expr_ELambda:
-		le := _v11.Value
+		le := _v13.Value
 		return colB(le.Body)
 	case Expr_ESlice:
-		es := _v11.Value
+		es := _v13.Value
 		inside := frt.Pipe(slice.Map(colE, es), slice.Concat)
 		return frt.Pipe(collectSlice(es), (func(_r0 []UniRel) []UniRel { return slice.Append(inside, _r0) }))
 	case Expr_ERecordGen:
-		rg := _v11.Value
+		rg := _v13.Value
 		fieldValEs := slice.Map(func(_v1 NEPair) Expr {
 			return _v1.Expr
 		}, rg.FieldsNV)
@@ -275,16 +303,16 @@ func collectExprRel(expr Expr) []UniRel {
 			return slice.Map((func(_r0 frt.Tuple2[string, FType]) []UniRel { return recNTUnify(rg.RecordType, _r0) }), _r0)
 		})), slice.Concat), (func(_r0 []UniRel) []UniRel { return slice.Append(inside, _r0) }))
 	case Expr_ELazyBlock:
-		lb := _v11.Value
+		lb := _v13.Value
 		return colB(lb.Block)
 	case Expr_EReturnableExpr:
-		re := _v11.Value
-		switch _v12 := (re).(type) {
+		re := _v13.Value
+		switch _v14 := (re).(type) {
 		case ReturnableExpr_RBlock:
-			bl := _v12.Value
+			bl := _v14.Value
 			return colB(bl)
 		case ReturnableExpr_RMatchExpr:
-			me := _v12.Value
+			me := _v14.Value
 			return frt.Pipe(frt.Pipe(frt.Pipe(mrsToBlocks(me.Rules), (func(_r0 []Block) [][]UniRel { return slice.Map(colB, _r0) })), slice.Concat), (func(_r0 []UniRel) []UniRel { return slice.Append(colE(me.Target), _r0) }))
 		default:
 			panic("Union pattern fail. Never reached here.")
@@ -295,9 +323,9 @@ func collectExprRel(expr Expr) []UniRel {
 }
 
 func lfdRetType(lfd LetFuncDef) FType {
-	switch _v13 := (lfd.Fvar.Ftype).(type) {
+	switch _v15 := (lfd.Fvar.Ftype).(type) {
 	case FType_FFunc:
-		ft := _v13.Value
+		ft := _v15.Value
 		return freturn(ft)
 	default:
 		PanicNow("LetFuncDef's fvar is not FFunc type.")
@@ -375,9 +403,9 @@ func rsRegisterNewEI(res Resolver, ei EquivInfo) {
 
 func updateResOne(res Resolver, rel UniRel) []UniRel {
 	ei1 := rsLookupEI(res, rel.SrcV)
-	switch _v14 := (rel.Dest).(type) {
+	switch _v16 := (rel.Dest).(type) {
 	case FType_FTypeVar:
-		tvd := _v14.Value
+		tvd := _v16.Value
 		ei2 := rsLookupEI(res, tvd.Name)
 		nei, rels := frt.Destr2(eiUnion(ei1, ei2))
 		rsRegisterNewEI(res, nei)
@@ -421,9 +449,9 @@ func resolveOneTypeVarP(path []string, rsv Resolver, tv TypeVar) FType {
 	recurse := (func(_r0 TypeVar) FType { return resolveOneTypeVarP(slice.PushHead(tv.Name, path), rsv, _r0) })
 	ei := rsLookupEI(rsv, tv.Name)
 	rcand := ei.resType
-	switch _v15 := (rcand).(type) {
+	switch _v17 := (rcand).(type) {
 	case FType_FTypeVar:
-		tv2 := _v15.Value
+		tv2 := _v17.Value
 		return frt.IfElse(frt.OpEqual(tv2.Name, tv.Name), (func() FType {
 			return rcand
 		}), (func() FType {
